@@ -18,7 +18,7 @@ def main(run, cfg, path):
     if c is not None and c.lang == 'c':
         from . import creplay
         return creplay.replay_file(run, rec)
-    out = replay.native_calls(run.program.repo, [dict(func=func, args=rec['failing_input'])])[0]
+    out = replay.native_calls(run.program.native_root(), [dict(func=func, args=rec['failing_input'])])[0]
     chk = replay.ConcreteChecker(run.program, func)
     case = None
     if rec.get('case') is not None and c is not None:
